@@ -18,6 +18,7 @@ GENERATORS = [
     ("GenFactsRewrite.v", "tr_facts:generate_rewrite"),
     ("GenFactsBuild.v", "tr_facts:generate_build"),
     ("GenFactsSession.v", "tr_facts:generate_session"),
+    ("GenFactsDenoise.v", "tr_facts:generate_denoise"),
     ("GenIdentity.v", "tr_identity"),
     ("GenPar.v", "tr_par"),
     ("GenUi.v", "tr_ui"),
